@@ -53,6 +53,7 @@ type invObs struct {
 	Txs       int            `json:"txs"`
 	OKTxs     int            `json:"ok_txs"`
 	Routes    int            `json:"routes"`
+	RouteList []string       `json:"route_names,omitempty"`
 	Checks    int            `json:"invariant_evaluations"`
 	Broken    []brokenInv    `json:"broken,omitempty"`
 	Panic     string         `json:"panic,omitempty"`
@@ -102,6 +103,11 @@ func invRunCase(id string, in bhInput, gen *bhGenerator) Case {
 			br, n := checkInvariants(h.Rep, h.Rep.ctx(), height, "after-endblock")
 			obs.Routes = n
 			obs.Checks += n
+			if obs.RouteList == nil {
+				for _, rt := range h.Rep.App.CrisisKeeper.Routes() {
+					obs.RouteList = append(obs.RouteList, rt.FullRoute())
+				}
+			}
 			obs.Broken = append(obs.Broken, br...)
 		},
 		AfterCommit: func(h *histRun, height int64) {
@@ -178,15 +184,9 @@ func invRunCase(id string, in bhInput, gen *bhGenerator) Case {
 	return c
 }
 
-// invClass maps a failing history to a known-finding class by the shape of the input.
-func invClass(in bhInput, o invObs) string {
-	if len(o.Broken) == 0 && o.Panic == "" {
-		return ""
-	}
-	return invClassOf(in, o)
-}
-
-func invClassOf(in bhInput, o invObs) string { return "" }
+// invClass: no known-finding class exists for C15 (the precompile defects K3-K9 change the supply through the
+// bank and leave every registered invariant intact), so every failing history is reported as a violation.
+func invClass(in bhInput, o invObs) string { return "" }
 
 func invariantsDriver(cfg Config, out *Out) error {
 	if cfg.Replay != "" {
